@@ -50,9 +50,9 @@ static const char *ENVNAME = "real";
 
 /* ------------------------------------------------------------------ ops */
 enum { O_BLK0, O_BLK1, O_T0, O_T50, O_TNEG, O_KA0, O_KA1, O_BACKLOG, O_BIND, O_LISTEN, O_CONN_OK, O_CONN_REFUSED, O_ACCEPT, O_SEND, O_RECV, O_WAIT_IN, O_SHUT_W, O_SHUT_RW, O_CLOSE,
-       O_PCONN, O_PSEND, O_PCLOSE, O_SENDTO, O_RECVFROM, O_PSENDTO, O_ACC_NBRECV, NOPS };
+       O_PCONN, O_PSEND, O_PCLOSE, O_SENDTO, O_RECVFROM, O_PSENDTO, O_ACC_NBRECV, O_CONN_SILENT, NOPS };
 static const char *ON[NOPS] = {"nonblocking", "blocking", "timeout0", "timeout50", "timeout-5", "keepalive0", "keepalive1", "backlog3", "bind", "listen", "connect-listening", "connect-closed-port", "accept", "send", "receive", "wait-in", "shutdown-w", "shutdown-rw", "close",
-                               "peer-connects", "peer-sends", "peer-closes", "send_to", "receive_from", "peer-send_to", "accepted-socket-nonblocking-receive"};
+                               "peer-connects", "peer-sends", "peer-closes", "send_to", "receive_from", "peer-send_to", "accepted-socket-nonblocking-receive", "connect-silent-peer"};
 static int DGRAM, FAM;
 
 /* reference model of the socket under test (documented behaviour, see DESIGN.md C10) */
@@ -67,6 +67,7 @@ static void ref_step(Ref *t, int o)
     case O_KA0: if (!t->closed) t->keepalive = 0; break; case O_KA1: if (!t->closed) t->keepalive = 1; break;
     case O_BACKLOG: if (!t->listening) t->backlog = 3; break; case O_BIND: if (!t->closed) t->bound = 1; break; case O_LISTEN: if (!t->closed) t->listening = 1; break;
     case O_CONN_OK: if (!t->closed) { t->connected = 1; t->have_peer_conn = 1; t->peer_listening = 1; } break;
+    case O_CONN_SILENT: t->have_peer_conn = 1; t->bound = 1; break;
     case O_ACCEPT: if (!t->closed && t->pending > 0) { t->pending--; t->acc_open = 1; } break;
     case O_RECV: if (!t->closed && t->rx > 0) t->rx -= t->rx < 4 ? t->rx : 4; break;
     case O_SHUT_W: t->shut_w = 1; break; case O_SHUT_RW: t->shut_w = 1; t->connected = 0; break;
@@ -91,6 +92,7 @@ static int op_applicable(const Ref *r, int op)
     case O_BIND: return !r->bound && !r->connected && !r->listening && !r->have_peer_conn;      /* binding a socket that was connected before is not defined */
     case O_LISTEN: return (r->bound && !r->connected && !r->listening) || r->closed;
     case O_CONN_OK: case O_CONN_REFUSED: return (!r->connected && !r->listening && !r->bound && !r->have_peer_conn) || r->closed;
+    case O_CONN_SILENT: return !r->connected && !r->listening && !r->bound && !r->have_peer_conn && !r->closed;
     case O_ACCEPT: return (r->listening && !r->acc_open) || r->closed;
     case O_SEND: return (r->connected && !r->shut_w && !r->peer_closed) || r->closed;
     case O_RECV: case O_WAIT_IN: return r->connected || r->closed;
@@ -105,7 +107,7 @@ static int op_applicable(const Ref *r, int op)
 }
 
 /* ------------------------------------------------------------------ one history on the real objects */
-static PSocket *sut, *acc; static int peer_listen = -1, peer_conn = -1, peer_dg = -1; static int peer_port;
+static PSocket *sut, *acc; static int peer_listen = -1, peer_conn = -1, peer_dg = -1, peer_fill = -1; static int peer_port;
 static char outcome[160];
 static char cur_hist[512]; static int replay_mode;
 static struct { char sig[128]; long n; } sigs[64]; static int nsigs; static int fail_flag;
@@ -135,14 +137,14 @@ static void hist_begin(void)
 {
     env_reset();
     sut = p_socket_new(FAM == 6 ? P_SOCKET_FAMILY_INET6 : P_SOCKET_FAMILY_INET, DGRAM ? P_SOCKET_TYPE_DATAGRAM : P_SOCKET_TYPE_STREAM, DGRAM ? P_SOCKET_PROTOCOL_UDP : P_SOCKET_PROTOCOL_TCP, NULL);
-    acc = NULL; peer_listen = peer_conn = peer_dg = -1;
+    acc = NULL; peer_listen = peer_conn = peer_dg = peer_fill = -1;
     if (!sut) { fprintf(stderr, "p_socket_new failed\n"); exit(2); }
     if (env_cloexec(p_socket_get_fd(sut)) != 1) viol("fd-flags/new-not-cloexec", "descriptor of a new socket does not carry close-on-exec");
 }
 static void hist_end(void)
 {
     p_socket_free(acc); p_socket_free(sut); sut = acc = NULL;
-    if (peer_listen >= 0) close(peer_listen); if (peer_conn >= 0) close(peer_conn); if (peer_dg >= 0) close(peer_dg);
+    if (peer_listen >= 0) close(peer_listen); if (peer_conn >= 0) close(peer_conn); if (peer_dg >= 0) close(peer_dg); if (peer_fill >= 0) close(peer_fill);
 }
 
 static const char *ec(PError *e)
@@ -225,6 +227,18 @@ static void do_op(const Ref *pre, int op)
             else { if (res || !e || p_error_get_code(e) != (pint)P_ERROR_IO_CONNECTION_REFUSED) viol("connect/refused-expected", "connect to a closed port: result %ld error %s (expected connection refused)", res, ec(e)); }
         }
         break; }
+    case O_CONN_SILENT: {     /* a listener whose accept queue is full: the handshake never completes */
+        struct sockaddr_storage ss; socklen_t l = mkaddr(&ss, 0); PSocketAddress *a; int port, fl;
+        peer_listen = socket(native_family(), SOCK_STREAM, 0);
+        if (bind(peer_listen, (struct sockaddr *)&ss, l) < 0 || listen(peer_listen, 0) < 0) { perror("peer listen"); exit(2); }
+        port = port_of(peer_listen); l = mkaddr(&ss, port);
+        peer_fill = socket(native_family(), SOCK_STREAM, 0); fl = fcntl(peer_fill, F_GETFL); fcntl(peer_fill, F_SETFL, fl | O_NONBLOCK);
+        if (connect(peer_fill, (struct sockaddr *)&ss, l) < 0 && errno != EINPROGRESS) { perror("filler connect"); exit(2); }
+        r->have_peer_conn = 1; r->bound = 1;
+        a = lib_addr(port); res = p_socket_connect(sut, a, &e); p_socket_address_free(a);
+        if (res) viol("connect/silent-peer-connected", "connect to a listener with a full accept queue reported success");
+        else { Ref t = *pre; if (!t.blocking) { if (!e || p_error_get_code(e) != (pint)P_ERROR_IO_IN_PROGRESS) viol("nonblocking/connect/wrong-error", "non-blocking connect that cannot complete reported %s instead of in-progress", ec(e)); if (env_clock() != t0 || env_blocking_polls() != p0) viol("nonblocking/connect/waited", "non-blocking connect waited"); } else check_wait_rules(&t, "connect", 0, ec(e), env_clock() - t0, env_blocking_polls() - p0, 0); }
+        break; }
     case O_ACCEPT: {
         PSocket *a = p_socket_accept(sut, &e); res = a != NULL;
         if (!r->closed) {
@@ -265,7 +279,7 @@ after:
     if (e) { snprintf(ebuf, sizeof ebuf, "%s", ec(e)); err = ebuf; }
     if (blocked) {
         Ref t = *r; int can_wait = 0;
-        switch (op) { case O_ACC_NBRECV: can_wait = 0; break; case O_ACCEPT: can_wait = r->pending == 0; break; case O_RECV: can_wait = r->rx == 0 && !r->peer_closed; break; case O_RECVFROM: can_wait = r->rx == 0; break; case O_WAIT_IN: can_wait = 1; t.blocking = 1; break; }
+        switch (op) { case O_ACC_NBRECV: can_wait = 0; break; case O_CONN_SILENT: can_wait = 1; break; case O_ACCEPT: can_wait = r->pending == 0; break; case O_RECV: can_wait = r->rx == 0 && !r->peer_closed; break; case O_RECVFROM: can_wait = r->rx == 0; break; case O_WAIT_IN: can_wait = 1; t.blocking = 1; break; }
         if (r->closed || !can_wait || !(r->blocking || op == O_WAIT_IN) || r->timeout > 0) { snprintf(sg, sizeof sg, "waits-forever/%s", ON[op]); viol(sg, "%s waits without a time limit although it %s", ON[op], r->closed ? "is called on a closed socket" : r->timeout > 0 ? "has a time-out" : !r->blocking ? "is non-blocking" : "could proceed"); }
         snprintf(outcome, sizeof outcome, "BLOCKS");
     } else snprintf(outcome, sizeof outcome, "res=%ld err=%s dt=%lu waits=%ld", res, err, dt, dp);
